@@ -284,5 +284,10 @@ example : replicasOfSeries true (without 2 [⟨10, 0, 0⟩, ⟨20, 2, 0⟩, ⟨3
 example : replicasOfSeries true [⟨10, 0, 0⟩, ⟨20, 2, 0⟩, ⟨30, 1, 0⟩, ⟨40, 3, 0⟩] [0] 2 35 = .ok [3, 0] := by decide
 example : replicasOfSeries true (without 2 [⟨10, 0, 0⟩, ⟨20, 2, 0⟩, ⟨30, 1, 0⟩, ⟨40, 3, 0⟩]) [0] 2 35 = .ok [3, 0] := by decide
 example : SortedRing [⟨10, 0, 0⟩, ⟨20, 2, 0⟩, ⟨30, 1, 0⟩, ⟨40, 3, 0⟩] := by unfold SortedRing; decide
+-- C20_add_endpoint: three zone-less endpoints, the one at list position 1 is the new one
+example : NoTies [⟨0, [10, 50]⟩, ⟨0, [20]⟩, ⟨0, [30, 5]⟩] ∧ (zonesOf [⟨0, [10, 50]⟩, ⟨0, [20]⟩, ⟨0, [30, 5]⟩]).length ≤ 1 := by
+  unfold NoTies; decide
+example : ([⟨0, [10, 50]⟩, ⟨0, [20]⟩, ⟨0, [30, 5]⟩] : List Ep).eraseIdx 1 = [⟨0, [10, 50]⟩, ⟨0, [30, 5]⟩] ∧
+    (List.range 2).map (up 3 1) = [0, 2] := by decide
 
 end Thanos.Hashring
